@@ -20,7 +20,7 @@ def S(xs):
 
 ALL_KINDS = ("audio", "video", "application", "image")
 ALL_CFG = dict(Modes=("WebRtc", "Srtp", "Rtp"), Compats=("Standard", "LegacySip"), Caps=("default", "pcmu", "custom"),
-               Pres=("none", "audio", "audio_video", "video_audio", "dc"), Negs=("first", "subsequent"))
+               Pres=("none", "audio", "audio_video", "video_audio", "dc"), Negs=("first", "subsequent", "grow"))
 
 
 def scen(label, maxsec, menus, sim=None, depth=None, **kw):
@@ -40,15 +40,15 @@ TIERS = {
     "quick": [
         # exhaustive: every single-section offer of the small menus x mid scheme x bundle, for every mode,
         # capability profile and first/subsequent negotiation
-        scen("exhaustive/1-section", 1, SMALL, Compats=("Standard",), Pres=("none",)),
+        scen("exhaustive/1-section", 1, SMALL, Compats=("Standard",), Pres=("none",), Negs=("first", "subsequent")),
         # random sample of the large space: 1..3 sections, full menus, every configuration dimension
         scen("random/1-3-sections", 3, FULL, sim=5000, Dirs=ALL_DIRS, Setups=ALL_SETUPS,
              BundleModes=("none", "all", "first2")),
     ],
     "thorough": [
         scen("exhaustive/1-section/full", 1, FULL, Dirs=ALL_DIRS, Setups=ALL_SETUPS, Pres=("none", "audio_video"),
-             Compats=("Standard",), Muxes=(True,)),
-        scen("exhaustive/1-section/compat", 1, SMALL, Pres=("none", "audio", "dc")),
+             Compats=("Standard",), Muxes=(True,), Negs=("first", "subsequent")),
+        scen("exhaustive/1-section/compat", 1, SMALL, Pres=("none", "audio", "dc"), Negs=("first", "subsequent")),
         scen("exhaustive/2-sections", 2, SMALL, Compats=("Standard",), Pres=("none",), Caps=("default", "pcmu"),
              Muxes=(True,), Dirs=("sendrecv",)),
         scen("random/1-6-sections", 6, FULL, sim=100000, Dirs=ALL_DIRS, Setups=ALL_SETUPS,
